@@ -633,24 +633,24 @@ type oInterp struct {
 	sinks    map[string][]int // function name -> argument indexes that must be sorted
 	missing  map[string]bool
 	fills    map[*ssa.Function]map[ssa.Instruction]ssa.Value // map-fill idiom: store/append -> parallel source slice
-	refine   map[ssa.Instruction]*oRefine                     // last call outcome per call instruction (current context)
-	lastOK   *OState                                          // state at the success returns of the function analysed last
-	curEq    uint8                                            // eq flag of the state being stepped
-	geomW    map[*ssa.Function]bool                           // functions that (transitively) write NumLeaves / TotalRows of the map forest
+	refine   map[ssa.Instruction]*oRefine                    // last call outcome per call instruction (current context)
+	lastOK   *OState                                         // state at the success returns of the function analysed last
+	curEq    uint8                                           // eq flag of the state being stepped
+	geomW    map[*ssa.Function]bool                          // functions that (transitively) write NumLeaves / TotalRows of the map forest
 }
 
 // requiresSorted is the table of functions whose documentation says "MUST be
 // sorted" (utils.go, prove.go, mappollard.go). Index = argument position; for
 // hashAndPos arguments the positions field is meant.
 var requiresSorted = map[string][]int{
-	"ProofPositions":           {0},
-	"deTwin":                   {0},
-	"deTwinHashAndPos":         {0},
-	"subtractSortedSlice":      {0, 1},
-	"subtractSortedHashAndPos": {0, 1},
-	"getHashAndPosSubset":      {0, 1},
-	"mergeSortedHashAndPos":    {0, 1},
-	"mergeSortedSlicesFunc":    {0, 1},
+	"ProofPositions":             {0},
+	"deTwin":                     {0},
+	"deTwinHashAndPos":           {0},
+	"subtractSortedSlice":        {0, 1},
+	"subtractSortedHashAndPos":   {0, 1},
+	"getHashAndPosSubset":        {0, 1},
+	"mergeSortedHashAndPos":      {0, 1},
+	"mergeSortedSlicesFunc":      {0, 1},
 	"(*MapPollard).trimProofPos": {1},
 }
 
